@@ -310,6 +310,19 @@ SdkNext ==
   \/ \E s \in Sess, o \in Streams : WRoute(s, o) \/ WLock(s, o) \/ WCS(s, o)
   \/ \E g \in Gets : AcqLookup(g) \/ AcqLock(g) \/ AcqCS(g)
   \/ \E e \in Exch : Wake(e) \/ Rel(e)
+\* ENABLED SdkNext, written out (cheaper for TLC; StreamSrvMC checks the equivalence)
+SdkEnabled ==
+  \/ \E s \in Sess, o \in Streams :
+        \/ wr[s][o].pc = "route"
+        \/ wr[s][o].pc = "lock" /\ lock[s][wr[s][o].tgt] = None
+        \/ wr[s][o].pc = "cs" /\ ~wr[s][o].held
+  \/ \E g \in Gets :
+        \/ x[g].pc = "lookup"
+        \/ x[g].pc = "lock" /\ (IF x[g].obj = "real" THEN lock[x[g].s][x[g].st] = None ELSE tlock[x[g].s][x[g].st] = None)
+        \/ x[g].pc = "cs" /\ (~x[g].held \/ x[g].obj = "tmpo" \/ (x[g].obj = "real" /\ str[x[g].s][x[g].st].w # None))
+  \/ \E e \in Exch :
+        \/ x[e].pc = "hang" /\ (x[e].cut \/ ~alive[x[e].s] \/ (str[x[e].s][x[e].st].w = e /\ ~str[x[e].s][x[e].st].open))
+        \/ x[e].pc = "rel" /\ lock[x[e].s][x[e].st] = None
 EnvNext ==
   \/ \E s \in Sess, r \in Reqs : Post(s, r) \/ (\E g \in BOOLEAN : HEmit(s, r, g)) \/ HSreq(s, r) \/ Ans(s, r) \/ HRet(s, r)
   \/ \E s \in Sess, g \in BOOLEAN : Sa(s, g)
@@ -336,7 +349,7 @@ IdStable == \A e1, e2 \in Exch : (Judged(e1) /\ Judged(e2) /\ x[e1].s = x[e2].s 
 StoreBeforeDeliver == \A e \in Exch : Judged(e) => \A j \in 1..Len(recv[e]) : recv[e][j].idx + 1 <= Len(L(e))
 \* ... equal at completion, and whenever the SDK is quiescent with the exchange still attached
 CompleteAtEnd == \A e \in Exch : okEnd[e]
-CompleteAtRest == (~ENABLED SdkNext) =>
+CompleteAtRest == (~SdkEnabled) =>
                     \A e \in Exch : (Judged(e) /\ x[e].pc = "hang" /\ ~x[e].cut) => x[e].from + Len(recv[e]) + 1 = Len(L(e))
 \* the final response stays obtainable: a replay that the server ended contains it
 FinalObtainable == \A g \in Gets :
